@@ -524,3 +524,153 @@ Proof.
   rewrite (proj1 (set_inv_table _ _ perm_table_wf (perm_table_covers _ Hp))).
   destruct a; reflexivity.
 Qed.
+
+(* ---- entries with a platform ------------------------------------------------------------- *)
+Definition wf_platform (p : platform) : Prop :=
+  match p with
+  | Unknown s => s <> [] /\ s <> lit "windows" /\ s <> lit "macos" /\ s <> lit "linux" /\ s <> lit "freebsd"
+                 /\ ~ In colon s
+  | _ => True
+  end.
+Definition wf_opt_platform (p : option platform) : Prop :=
+  match p with Some q => wf_platform q | None => True end.
+
+Lemma platform_inv p : wf_platform p -> platform_of_string (platform_to_string p) = p.
+Proof.
+  destruct p as [| | | | |s]; try reflexivity. cbn [wf_platform platform_to_string].
+  intros (H0 & H1 & H2 & H3 & H4 & _). unfold platform_of_string.
+  rewrite !bytes_eqb_neq by assumption. reflexivity.
+Qed.
+Lemma platform_colon_free p : wf_platform p -> ~ In colon (platform_to_string p).
+Proof.
+  destruct p as [| | | | |s]; cbn [wf_platform platform_to_string]; intros H;
+    [cbn; intuition discriminate .. | apply H].
+Qed.
+Lemma platform_stable s : wf_platform (platform_of_string s) \/ In colon s.
+Proof.
+  unfold platform_of_string.
+  destruct (bytes_eqb s []) eqn:E0; [left; exact I|].
+  destruct (bytes_eqb s (lit "windows")) eqn:E1; [left; exact I|].
+  destruct (bytes_eqb s (lit "macos")) eqn:E2; [left; exact I|].
+  destruct (bytes_eqb s (lit "linux")) eqn:E3; [left; exact I|].
+  destruct (bytes_eqb s (lit "freebsd")) eqn:E4; [left; exact I|].
+  destruct (in_dec Byte.byte_eq_dec colon s) as [Hin|Hni]; [right; exact Hin|left].
+  cbn [wf_platform]. repeat split; try exact Hni; intros ->; rewrite bytes_eqb_refl in *; discriminate.
+Qed.
+
+Lemma count_fields c s : len (fields c s) = count_byte c s + 1.
+Proof.
+  unfold count_byte. induction s as [|b s IH]; [reflexivity|].
+  destruct (byte_eqb c b) eqn:E.
+  - apply byte_eqb_eq in E. subst b. rewrite fields_cons_sep. cbn [filter]. rewrite byte_eqb_refl.
+    rewrite !len_cons, IH. lia.
+  - assert (Hb : b <> c) by (intros ->; rewrite byte_eqb_refl in E; discriminate).
+    rewrite fields_cons_other by exact Hb. cbn [filter]. rewrite E, <- IH.
+    pose proof (fields_not_nil c s) as Hn. destruct (fields c s); [contradiction|reflexivity].
+Qed.
+Lemma count_app c a b : count_byte c (a ++ b) = count_byte c a + count_byte c b.
+Proof. unfold count_byte. rewrite filter_app, len_app. reflexivity. Qed.
+Lemma count_free c x : ~ In c x -> count_byte c x = 0.
+Proof.
+  unfold count_byte. induction x as [|b x IH]; intros H; [reflexivity|]. cbn [filter].
+  rewrite byte_eqb_neq by (intros ->; apply H; left; reflexivity). apply IH. intros Hx. apply H. right. exact Hx.
+Qed.
+Lemma count_cons_same c x : count_byte c (c :: x) = 1 + count_byte c x.
+Proof. unfold count_byte. cbn [filter]. rewrite byte_eqb_refl. apply len_cons. Qed.
+
+Lemma split_once_app c x r : ~ In c x -> split_once c (x ++ c :: r) = Some (x, r).
+Proof.
+  induction x as [|b x IH]; intros H.
+  - cbn [app split_once]. rewrite byte_eqb_refl. reflexivity.
+  - cbn [app split_once]. rewrite byte_eqb_neq by (intros ->; apply H; left; reflexivity).
+    rewrite IH by (intros Hx; apply H; right; exact Hx). reflexivity.
+Qed.
+
+Lemma ace_colons a : wf_ace a -> count_byte colon (ace_to_string a) = 4.
+Proof.
+  intros H. pose proof (count_fields colon (ace_to_string a)) as Hc.
+  rewrite (ace_fields a H) in Hc. change (len _) with 5 in Hc at 1. lia.
+Qed.
+
+Theorem ace_platform_inv : forall p a, wf_opt_platform p -> wf_ace a ->
+  awp_of_string (awp_to_string (p, a)) = Ok (p, a).
+Proof.
+  intros [p|] a Hp Ha; unfold awp_of_string, awp_to_string; cbn [fst snd].
+  - cbn [wf_opt_platform] in Hp.
+    rewrite count_app, count_cons_same, (count_free _ _ (platform_colon_free p Hp)), (ace_colons a Ha).
+    change (N.eqb (0 + (1 + 4)) 5) with true. cbv iota.
+    rewrite (split_once_app _ _ _ (platform_colon_free p Hp)), (ace_inv a Ha). cbn [bind].
+    rewrite (platform_inv p Hp). reflexivity.
+  - rewrite (ace_colons a Ha). change (N.eqb 4 5) with false. cbv iota. rewrite (ace_inv a Ha). reflexivity.
+Qed.
+
+(* ---- stability: whatever the parsers accept is in the domain of the inverse laws ---------- *)
+Lemma lor_lt_pow2 a b k : a < 2 ^ k -> b < 2 ^ k -> N.lor a b < 2 ^ k.
+Proof.
+  intros Ha Hb. destruct (N.eq_dec (N.lor a b) 0) as [->|Hne]; [apply N.neq_0_lt_0, N.pow_nonzero; discriminate|].
+  apply N.log2_lt_pow2; [lia|]. rewrite N.log2_lor.
+  destruct (N.eq_dec a 0) as [->|Ha0]; destruct (N.eq_dec b 0) as [->|Hb0].
+  - exfalso. apply Hne. reflexivity.
+  - rewrite N.max_r by (cbn; lia). apply N.log2_lt_pow2; lia.
+  - rewrite N.max_l by (cbn; lia). apply N.log2_lt_pow2; lia.
+  - apply N.max_lub_lt; apply N.log2_lt_pow2; lia.
+Qed.
+
+Lemma set_of_names_bound tbl k names : forallb (fun e => N.ltb (fst e) (2 ^ k)) tbl = true ->
+  set_of_names tbl names < 2 ^ k.
+Proof.
+  intros H. unfold set_of_names.
+  assert (Hg : forall acc, acc < 2 ^ k ->
+    fold_left (fun acc e => if entry_listed names e then N.lor acc (fst e) else acc) tbl acc < 2 ^ k).
+  { induction tbl as [|e t IH]; intros acc Hacc; [exact Hacc|].
+    cbn [forallb] in H. apply andb_true_iff in H. destruct H as [He Ht]. apply N.ltb_lt in He.
+    cbn [fold_left]. apply IH; [exact Ht|]. destruct (entry_listed names e); [apply lor_lt_pow2; assumption | exact Hacc]. }
+  apply Hg. apply N.neq_0_lt_0, N.pow_nonzero. discriminate.
+Qed.
+
+Lemma owner_of_strings_wf t n o : ~ In colon n -> owner_of_strings t n = Ok o -> wf_ident o.
+Proof.
+  intros Hn. unfold owner_of_strings.
+  destruct (bytes_eqb t (lit "u") || bytes_eqb t (lit "user")).
+  { intros H. inversion H. destruct n; cbn; [exact I | split; [discriminate | exact Hn]]. }
+  destruct (bytes_eqb t (lit "g") || bytes_eqb t (lit "group")).
+  { intros H. inversion H. destruct n; cbn; [exact I | split; [discriminate | exact Hn]]. }
+  destruct (bytes_eqb t (lit "m") || bytes_eqb t (lit "mask")); [intros H; inversion H; exact I|].
+  destruct (bytes_eqb t (lit "o") || bytes_eqb t (lit "other")); [intros H; inversion H; exact I|].
+  discriminate.
+Qed.
+
+Lemma ace_of_string_wf s a : ace_of_string s = Ok a -> wf_ace a.
+Proof.
+  unfold ace_of_string. pose proof (fields_no_sep colon s) as Hf.
+  destruct (fields colon s) as [|f [|t [|n [|al [|p [|x xs]]]]]]; try discriminate.
+  destruct (owner_of_strings t n) as [o| |] eqn:Eo; try discriminate. cbn [bind].
+  destruct (allow_of_string al) as [b| |]; try discriminate. cbn [bind].
+  intros H. inversion H; subst. unfold wf_ace. cbn [a_flags a_perm a_owner]. repeat split.
+  - apply (set_of_names_bound flag_table 6). vm_compute. reflexivity.
+  - apply (set_of_names_bound perm_table 16). vm_compute. reflexivity.
+  - apply (owner_of_strings_wf t n o); [|exact Eo].
+    inversion Hf as [|? ? _ Hf1]; subst. inversion Hf1 as [|? ? _ Hf2]; subst. inversion Hf2; subst. assumption.
+Qed.
+
+Theorem ace_stable : forall s a, ace_of_string s = Ok a -> ace_of_string (ace_to_string a) = Ok a.
+Proof. intros s a H. apply ace_inv, (ace_of_string_wf s a H). Qed.
+
+Lemma split_once_some c s : forall x y, split_once c s = Some (x, y) -> ~ In c x.
+Proof.
+  induction s as [|b s IH]; intros x y H; [discriminate|]. cbn [split_once] in H.
+  destruct (byte_eqb b c) eqn:E; [inversion H; subst; intros []|].
+  destruct (split_once c s) as [[x' y']|]; [|discriminate]. inversion H; subst.
+  intros [->|Hin]; [rewrite byte_eqb_refl in E; discriminate | exact (IH _ _ eq_refl Hin)].
+Qed.
+
+Theorem ace_platform_stable : forall s pa, awp_of_string s = Ok pa -> awp_of_string (awp_to_string pa) = Ok pa.
+Proof.
+  intros s [p a]. unfold awp_of_string. destruct (N.eqb (count_byte colon s) 5).
+  - destruct (split_once colon s) as [[x r]|] eqn:Es; [|discriminate].
+    destruct (ace_of_string r) as [a'| |] eqn:Ea; try discriminate. cbn [bind]. intros H. inversion H; subst.
+    apply ace_platform_inv; [|apply (ace_of_string_wf r a Ea)]. cbn [wf_opt_platform].
+    destruct (platform_stable x) as [Hp|Hin]; [exact Hp | exfalso; exact (split_once_some _ _ _ _ Es Hin)].
+  - destruct (ace_of_string s) as [a'| |] eqn:Ea; try discriminate. cbn [bind]. intros H. inversion H; subst.
+    apply ace_platform_inv; [exact I | apply (ace_of_string_wf s a Ea)].
+Qed.
